@@ -296,6 +296,10 @@ class Wsdl11(XmlSchema):
             binding_name = self._get_binding_name(service_name)
             port_binding_names.append((service_name, binding_name))
 
+        # messages are defined in the target namespace of the document, whatever
+        # the namespace of the element they carry.
+        pref_tns = self.interface.get_namespace_prefix(self.interface.get_tns())
+
         for method in service.public_methods.values():
             check_method_port(service, method)
 
@@ -318,14 +322,14 @@ class Wsdl11(XmlSchema):
 
             op_input = SubElement(operation, WSDL11("input"))
             op_input.set('name', method.in_message.get_element_name())
-            op_input.set('message',
-                          method.in_message.get_element_name_ns(self.interface))
+            op_input.set('message', '%s:%s' % (pref_tns,
+                                          method.in_message.get_element_name()))
 
             if (not method.is_callback) and (not method.is_async):
                 op_output = SubElement(operation, WSDL11("output"))
                 op_output.set('name', method.out_message.get_element_name())
-                op_output.set('message', method.out_message.get_element_name_ns(
-                                                                self.interface))
+                op_output.set('message', '%s:%s' % (pref_tns,
+                                         method.out_message.get_element_name()))
 
                 if not (method.faults is None):
                     for f in method.faults:
